@@ -19,6 +19,10 @@ RULE = (
     "Algebra: $not/$and/$or of real results. Non-trivial and distinct = distinct (corpus, filter) pairs that were "
     "judged and whose result is neither empty nor the whole corpus."
 )
+RULE += (
+    " " + "Added later: integers beyond 2**53 and the float next to them; strings and patterns holding '/'; one mapping constraining a key twice (dotted and nested); single-digit document values changed through another handle with the file's time stamp put back, then asked again through the long-lived handle."
+    " In every third case DEBUG logging is effective for the package."
+)
 ASSUMPTIONS = [
     "Evaluator conventions where the statement is silent: presence required for every operator but $exists:false; "
     "Python == after list->tuple; mapping-valued keys equal nothing; isinstance for $type; math.isclose for $near.",
